@@ -137,8 +137,26 @@ func c15concurrent(lb proxycore.LoadBalancer, rounds int) (ok bool) {
 		}()
 	}
 	for i := 0; i < rounds; i++ {
-		lb.OnEvent(&proxycore.AddEvent{Host: c15host(40 + i%8)})
-		lb.OnEvent(&proxycore.RemoveEvent{Host: c15host(40 + i%8)})
+		switch i % 4 {
+		case 0: // one host joins and leaves (the last element of the list)
+			lb.OnEvent(&proxycore.AddEvent{Host: c15host(40 + i%8)})
+			lb.OnEvent(&proxycore.RemoveEvent{Host: c15host(40 + i%8)})
+		case 1: // several hosts join, then leave back to back, the earlier-listed ones first (elements shift)
+			for k := 0; k < 3; k++ {
+				lb.OnEvent(&proxycore.AddEvent{Host: c15host(50 + k)})
+			}
+			for k := 0; k < 3; k++ {
+				lb.OnEvent(&proxycore.RemoveEvent{Host: c15host(50 + k)})
+			}
+		case 2: // the list is replaced by a longer and then by the original one
+			lb.OnEvent(&proxycore.BootstrapEvent{Hosts: []*proxycore.Host{c15host(1), c15host(2), c15host(3), c15host(60), c15host(61), c15host(62)}})
+			lb.OnEvent(&proxycore.BootstrapEvent{Hosts: []*proxycore.Host{c15host(1), c15host(2), c15host(3)}})
+		default: // a host from the middle of the list leaves and comes back
+			lb.OnEvent(&proxycore.RemoveEvent{Host: c15host(2)})
+			lb.OnEvent(&proxycore.AddEvent{Host: c15host(2)})
+			lb.OnEvent(&proxycore.RemoveEvent{Host: c15host(1)})
+			lb.OnEvent(&proxycore.AddEvent{Host: c15host(1)})
+		}
 	}
 	close(stop)
 	wg.Wait()
